@@ -92,6 +92,8 @@ def _build():
     _add('builtin[max2,min-list,sum-list]', Q(items=[Item('max(a1, a2)', lambda e: max(e.a(1), e.a(2))), Item('min([a1, a2])', lambda e: min([e.a(1), e.a(2)])),
                                                    Item('sum([a1, a2, 1])', lambda e: e.a(1) + e.a(2) + 1)]), ['ii', 'ii'], quick=True)
     _add('builtin[max-key,where]', Q(items=[Item('max([a1, a2], key=lambda v: -v)', lambda e: max([e.a(1), e.a(2)], key=lambda v: -v)), NR], where=('min(a1, a2) >= 0', lambda e: min(e.a(1), e.a(2)) >= 0)), ['ii', 'ii'])
+    _add('builtin[generator,map,tuple]', Q(items=[Item('max(x for x in [a1, a2])', lambda e: max(e.a(1), e.a(2))), Item('min(map(abs, [a1, a2]))', lambda e: min(abs(e.a(1)), abs(e.a(2)))),
+                                                   Item('min((a1, a2))', lambda e: min(e.a(1), e.a(2))), Item('sum(x for x in (a1, a2))', lambda e: e.a(1) + e.a(2))]), ['ii'], quick=True)
     _add('builtin[with-agg]', Q(items=[Item('max(a1, a1)', lambda e: max(e.a(1), e.a(1))), agg('SUM', 'a2', A2, 'sum')], group=G1), ['ii', 'ii', 'ii'], quick=True)
     # K: group keys enumerated by the solver over a small domain and made concrete per path (digit-length / sign boundaries, where an engine
     #    model of str()/repr() of keys would be imprecise): key order must be the numeric order
